@@ -22,6 +22,9 @@ A_ALPHA = ["a", " ", "\t", "\r", "\n"]
 HOSTS = {
     "info": ("JSIGHT 0.3\nINFO\n  Title \"T\"\n  Description\n%s", lambda c: c["info"].get("description")),
     "http": ("JSIGHT 0.3\nGET /d\n  Description\n%s  200 any\n", lambda c: next(iter(c["interactions"].values())).get("description")),
+    # a bare description ends at the next directive line: response codes with every kind of digit
+    "http409": ("JSIGHT 0.3\nGET /d\n  Description\n%s  409 any\n", lambda c: next(iter(c["interactions"].values())).get("description")),
+    "http599": ("JSIGHT 0.3\nPOST /d\n  Description\n%s  599 any\n  190 any\n", lambda c: next(iter(c["interactions"].values())).get("description")),
     "rpc": ("JSIGHT 0.3\nURL /r\n  Protocol json-rpc-2.0\n  Method m\n    Description\n%s    Result\n    {}\n",
             lambda c: next(iter(c["interactions"].values())).get("description")),
     "tag": ("JSIGHT 0.3\nTAG @t\n  Description\n%s", lambda c: c["tags"]["@t"].get("description")),
